@@ -187,6 +187,11 @@ def run_suite(ctx, rng, idx, cipher, mac, comp, lengths, sample=False, window=Fa
         if window:
             ctx.count("window_lengths_checked")
     check_stream(ctx, b, cipher, mac, comp, wit0)
+    if len(b.sent) >= 400:
+        ctx.count("packetizers_with_400_or_more_packets")
+        if cipher is not None and not cipher.endswith("-ctr"):
+            ctx.count("random_padding_packetizers_with_400_or_more_packets")
+    ctx.note("max_packets_on_one_packetizer", max(ctx.notes.get("max_packets_on_one_packetizer", 0), len(b.sent)))
 
 
 # every ordered pair of framing families occurs as a transition of this walk
@@ -212,7 +217,7 @@ def run_chain(ctx, rng, idx, comp, byfam):
         except Exception as e:
             ctx.violation("sender failed while switching keys: %s" % core.exc_signature(e), repr(e), wit0)
             return
-        ctx.count("rekey_transition_%s_to_%s" % (prev, mode))
+        ctx.count("epoch_family_transitions_seen_%s_to_%s" % (prev, mode))
         lens = list(range(1, 2 * bs + 9))
         rng.shuffle(lens)
         for n in lens:
@@ -259,8 +264,13 @@ def run(ctx):
             # walks the window three times (ascending, descending, shuffled) = 3 x (4*bs+9) packets in a row
             shuffled = list(window)
             rng.shuffle(shuffled)
-            run_suite(ctx, rng, i, c, m, comp, window + window[::-1] + shuffled, sample=len(ctx.samples) < 3,
-                      window=True)
+            seq = window + window[::-1] + shuffled
+            # ... and goes on cycling through the residues until the connection has sent >= 450 packets, so that
+            # anything that depends on how many packets one Packetizer has written shows up
+            cyc = list(range(1, 2 * bs + 9))
+            while len(seq) < 450:
+                seq += cyc
+            run_suite(ctx, rng, i, c, m, comp, seq, sample=len(ctx.samples) < 3, window=True)
             ctx.count("window_suites_enumerated")
     ctx.count("exhaustive_window_complete")
     ctx.require("window_suites_enumerated", 2 * len(suites))
@@ -268,12 +278,13 @@ def run(ctx):
     byfam = pb.suites_by_family()
     for j in range(ctx.pick(3, 30)):
         run_chain(ctx, rng, j + ctx.shard, "zlib" if j % 3 == 2 else "none", byfam)
+    ctx.require("random_padding_packetizers_with_400_or_more_packets", 60)
     ctx.require("rekey_chains_completed", 12)
     ctx.require("chain_packets_checked", 4000)
     for fa in pb.FAMILIES:
         for fb in pb.FAMILIES:
             if byfam[fa] and byfam[fb]:
-                ctx.require("rekey_transition_%s_to_%s" % (fa, fb), 12)
+                ctx.require("epoch_family_transitions_seen_%s_to_%s" % (fa, fb), 12)
     # (b) boundaries up to 2^18 and random lengths
     reps = ctx.pick(1, 30)
     for rep in range(reps):
